@@ -103,6 +103,13 @@ var propSpecs = map[string]*PropSpec{
 		Explanation: "JSONMinify against the RFC 8259 string lexer as a ghost automaton: inductive invariant 'the code's flags agree with the automaton' and, per character, 'copied once unchanged unless white space outside a string'; WriteJSON hands the writer exactly the minified (or unminified) marshalled text of the handler's value; WriteMaybeCompressed sends the body or its announced gzip",
 		TrustedBase: []string{"encoding/json.MarshalIndent emits a JSON text (no backslash outside a string)", "RFC 8259 §2: white space between tokens is insignificant", "compress/gzip round trip", "unicode.IsSpace is false of '\"' and '\\'"},
 	},
+	"C38": {
+		Patterns:    []string{"./..."},
+		Level:       "other",
+		Explanation: "ground obligations regenerated on every run from /repo's current source and language files: (1) every key of the message table has English text; (2) every translation in every shipped language is non-empty and uses exactly the placeholders of the English text; (3) every compile-time-constant key at a call site of i18n.T/Text/L/LLang/M/MLang/E/ELang and errors.Message, with the prefix that entry point adds (checked against the source), has English text in the table; plus one deductive contract: NegotiateLanguage returns the empty string or a language isSupportedLanguage accepts, in safe mode (every index and slice in bounds for every Accept-Language header)",
+		TrustedBase: []string{"tools/lang builds the table the program is compiled with (the same generated messages.go is used here)", "call sites that pass a non-constant key are counted and not checked", "keys marked with a leading underscore in errors.Message are the interpreter's flow-control signals, not messages (the source says so)", "isSupportedLanguage is a function of the table during one call"},
+		Extra:       c38Extra,
+	},
 	"C27": {
 		Patterns: []string{"./..."},
 		Level:    "proof",
